@@ -236,7 +236,8 @@ func fitReplay(in io.Reader, raw bool, args []string) (*Summary, error) {
 			if pass == 1 {
 				rng.Shuffle(len(px), func(i, j int) { px[i], px[j] = px[j], px[i]; py[i], py[j] = py[j], py[i] })
 			}
-			sx, sy := append([]float64{}, px...), append([]float64{}, py...)
+			px, okx := guarded(px)
+			py, oky := guarded(py)
 			sum.Checks++
 			f := fit.LOESS(px, py, fc.Deg, span)
 			got := f(x0)
@@ -246,8 +247,8 @@ func fitReplay(in io.Reader, raw bool, args []string) (*Summary, error) {
 			if !closeRat(got, exact, tol, 0) {
 				sum.viol("LOESS", c, "pass %d: LOESS(deg %d, span %v)(%v)=%.12g want %.12g", pass, fc.Deg, span, x0, got, rf(exact))
 			}
-			if !bitsEqual(px, sx) || !bitsEqual(py, sy) {
-				sum.viol("argument-modified", c, "LOESS changed its inputs")
+			if !okx() || !oky() {
+				sum.viol("argument-modified", c, "LOESS changed its inputs (or the spare capacity behind them)")
 			}
 		}
 	})
